@@ -31,12 +31,12 @@ import (
 )
 
 type scenario struct {
-	Program string `json:"program"` // buffer | deadline | dpipe | vnet | build | tbf | udp | delayfilter
+	Program string `json:"program"` // buffer | deadline | dpipe | vnet | build | tbf | udp | delayfilter | filters
 	Workers int    `json:"workers"`
 	Ops     [][]int `json:"ops"` // per worker: operation codes (meaning depends on the program)
 }
 
-var programs = []string{"buffer", "deadline", "dpipe", "vnet", "build", "tbf", "udp", "delayfilter"}
+var programs = []string{"buffer", "deadline", "dpipe", "vnet", "build", "tbf", "udp", "delayfilter", "filters"}
 
 func gen(r *harn.Rng, tier string) interface{} {
 	sc := &scenario{Program: programs[r.Intn(len(programs))]}
@@ -272,6 +272,32 @@ func run(env *simrt.Env, sci interface{}) {
 		})
 		env.Join(hs...)
 		_ = tbf.Close()
+	case "filters":
+		// independent filter instances (one set per client) used in parallel: they must not
+		// share unsynchronised state behind the caller's back
+		src := &net.UDPAddr{IP: net.IPv4(10, 0, 0, 1), Port: 1}
+		dst := &net.UDPAddr{IP: net.IPv4(10, 0, 0, 2), Port: 2}
+		spawn(func(w int, ops []int) {
+			sink := &vnet.VerifSink{OnChunk: func(_, _ net.Addr, _ []byte) {}}
+			lf, err := vnet.NewLossFilter(sink, 10+len(ops)*7)
+			if err != nil {
+				return
+			}
+			tbf, err := vnet.NewTokenBucketFilter(sink, vnet.TBFRate(8*vnet.MBit), vnet.TBFMaxBurst(4000))
+			if err != nil {
+				return
+			}
+			for _, o := range ops {
+				switch o % 3 {
+				case 0, 1:
+					vnet.VerifInject(lf, src, dst, make([]byte, 1+o%300))
+				default:
+					vnet.VerifInject(tbf, src, dst, make([]byte, 1+o%300))
+				}
+			}
+			_ = tbf.Close()
+		})
+		env.Join(hs...)
 	case "delayfilter":
 		sink := &vnet.VerifSink{OnChunk: func(_, _ net.Addr, _ []byte) {}}
 		df, _ := vnet.NewDelayFilter(sink, 100*time.Microsecond)
@@ -414,6 +440,9 @@ func parseReports(text string) [][]string {
 					fn := m[1]
 					if strings.HasPrefix(fn, "runtime.") || strings.HasPrefix(fn, "sync.") || strings.HasPrefix(fn, "sync/atomic.") || strings.HasPrefix(fn, "internal/") {
 						continue
+					}
+					if strings.Contains(fn, "/zzverif/simrt.(*Rand).") || strings.Contains(fn, "/zzverif/simrt.(*Source).") {
+						continue // the stand-in for *rand.Rand: the access belongs to its caller, as with math/rand itself
 					}
 					owners = append(owners, fn)
 					found = true
